@@ -14,6 +14,11 @@ namespace Bee2V.C15
 inductive VS | unk | null | live | closed
 deriving DecidableEq, Repr
 
+/-- progress of authentication on a path: no verification call yet / result pending / the result
+of the most recent call was tested and is success / it was tested and is failure (or was lost) -/
+inductive VSt | none | pending | passed | failed
+deriving DecidableEq, Repr
+
 /-- what is known about the error code (the function's `err_t` local / a returned value) -/
 inductive CS | unk | ok | bad
 deriving DecidableEq, Repr
@@ -25,6 +30,8 @@ inductive Ev
   | resizeOk (v : Nat)    -- v = blobResize(v, ..) succeeded
   | resizeFail (v : Nat)  -- v = blobResize(v, ..) returned 0 (v overwritten with 0)
   | resizeKeep (v : Nat)  -- t = blobResize(v, ..) returned 0 into a temporary: v keeps its block
+  | cls (n : Nat)         -- the err_t constant n occurs in the value being returned / assigned to `code`
+  | calleeFail (f : Nat)  -- an err_t callee that allocates failed and its result was DISCARDED
   | close (v : Nat)       -- blobClose(v)
   | free (v : Nat)        -- memFree(v) / free(v)
   | setnull (v : Nat)     -- v = 0
@@ -34,7 +41,10 @@ inductive Ev
   | wr (d : Nat)          -- output parameter d may be written
   | zero (d : Nat)        -- memSetZero(d, ..)
   | code (c : CS)         -- code = …   (also: the fact learnt by a test of `code`)
-  | vfy                   -- a verification routine (MAC / key-token check) has been called
+  | test (c : CS)         -- the fact learnt by a test of `code` (emitted by `ifcode`, never by an atom)
+  | vcall (toCode : Bool) -- a verification routine (MAC / key-token check) was called; toCode: its
+                          -- result is the new value of `code`, otherwise it is tested at once
+  | vres (okv : Bool)     -- the boolean result of the verification call just made was tested
 deriving DecidableEq, Repr
 
 inductive RetV | ok | err (n : Nat) | code | unk
@@ -60,6 +70,31 @@ def seqs : List Cfg → Cfg
   | [a] => a
   | a :: rest => .seq a (seqs rest)
 @[reducible] def alloc (v : Nat) : Cfg := .atom [.allocOk v, .allocFail v]
+/-- `return ERR_X;` with X = n ≠ 0 -/
+@[reducible] def retErr (n : Nat) : Cfg := .seq (.atom [.cls n]) (.ret (.err n))
+/-- all events that occur syntactically in a skeleton -/
+def events : Cfg → List Ev
+  | .atom es => es
+  | .seq a b => a.events ++ b.events
+  | .ite _ t e => t.events ++ e.events
+  | .ifnull _ t e => t.events ++ e.events
+  | .ifcode t e => t.events ++ e.events
+  | .loop b => b.events
+  | .blk b => b.events
+  | _ => []
+/-- does the skeleton return the value of `code` or of an expression (a callee's code passed through)? -/
+def passes : Cfg → Bool
+  | .ret .code => true
+  | .ret .unk => true
+  | .seq a b => a.passes || b.passes
+  | .ite _ t e => t.passes || e.passes
+  | .ifnull _ t e => t.passes || e.passes
+  | .ifcode t e => t.passes || e.passes
+  | .loop b => b.passes
+  | .blk b => b.passes
+  | _ => false
+/-- the err_t constants the skeleton itself can return (directly or through `code`) -/
+def classes (c : Cfg) : List Nat := c.events.filterMap fun e => match e with | .cls n => some n | _ => none
 @[reducible] def resize (v : Nat) : Cfg := .atom [.resizeOk v, .resizeFail v]
 end Cfg
 
@@ -82,8 +117,9 @@ structure St where
   code : CS := .unk
   failed : Bool := false    -- some allocation on this path has failed
   dirty : List Bool := []   -- output d written and not zeroised since
-  vfy : Bool := false       -- a verification call has happened on this path
-  early : List Bool := []   -- output d was written before any verification call
+  vst : VSt := .none        -- state of authentication (see `VSt`)
+  codeV : Bool := false     -- `code` currently holds the result of the pending verification call
+  early : List Bool := []   -- output d was written while authentication had not passed
   lost : Bool := false      -- C15: a live blob was overwritten / freed directly / closed twice
   crash : Bool := false     -- C09: a null or closed blob was used
 deriving DecidableEq, Repr
@@ -104,6 +140,8 @@ def apply (s : St) : Ev → St
   | .resizeOk v => s.setv v .live
   | .resizeFail v => { s.setv v .null with lost := s.lost || s.isLive v, failed := true }
   | .resizeKeep _ => { s with failed := true }
+  | .calleeFail _ => { s with failed := true }
+  | .cls _ => s
   | .close v =>
     match s.st v with
     | .live => s.setv v .closed
@@ -115,10 +153,16 @@ def apply (s : St) : Ev → St
   | .use v => { s with crash := s.crash || s.st v == .null || s.st v == .closed }
   | .call _ => s
   | .wr d => { s with dirty := setAt false s.dirty d true,
-                      early := if s.vfy then s.early else setAt false s.early d true }
+                      early := if s.vst = .passed then s.early else setAt false s.early d true }
   | .zero d => { s with dirty := setAt false s.dirty d false }
-  | .code c => { s with code := c }
-  | .vfy => { s with vfy := true }
+  | .code c => { s with code := c, codeV := false,
+                        vst := if s.codeV && s.vst == .pending then .failed else s.vst }
+  | .test c =>
+    { s with code := c,
+             vst := if s.codeV && s.vst == .pending then (if c = .ok then .passed else .failed) else s.vst }
+  | .vcall toCode => { s with vst := .pending, codeV := toCode, code := if toCode then .unk else s.code }
+  | .vres okv =>
+    { s with vst := if !s.codeV && s.vst == .pending then (if okv then .passed else .failed) else s.vst }
 end St
 
 def RetV.eval (s : St) : RetV → CS
@@ -149,10 +193,10 @@ inductive Exec : Cfg → St → List Ev → St → Out → Prop
       Exec (.ifnull v t e) s tr s' o
   | ifnullF {v t e s tr s' o} : s.st v ≠ .null → Exec e s tr s' o →
       Exec (.ifnull v t e) s tr s' o
-  | ifcodeT {t e s tr s' o} : s.code ≠ .ok → Exec t (s.apply (.code .bad)) tr s' o →
-      Exec (.ifcode t e) s (.code .bad :: tr) s' o
-  | ifcodeF {t e s tr s' o} : s.code ≠ .bad → Exec e (s.apply (.code .ok)) tr s' o →
-      Exec (.ifcode t e) s (.code .ok :: tr) s' o
+  | ifcodeT {t e s tr s' o} : s.code ≠ .ok → Exec t (s.apply (.test .bad)) tr s' o →
+      Exec (.ifcode t e) s (.test .bad :: tr) s' o
+  | ifcodeF {t e s tr s' o} : s.code ≠ .bad → Exec e (s.apply (.test .ok)) tr s' o →
+      Exec (.ifcode t e) s (.test .ok :: tr) s' o
   | loopStop {b s} : Exec (.loop b) s [] s .norm
   | loopStep {b s t1 s1 o1 t2 s2 o} : Exec b s t1 s1 o1 → (o1 = .norm ∨ o1 = .cont) →
       Exec (.loop b) s1 t2 s2 o → Exec (.loop b) s (t1 ++ t2) s2 o
@@ -206,8 +250,8 @@ def reach : Cfg → List St → Res
     { norm := uni rt.norm re.norm, brk := uni rt.brk re.brk, cont := uni rt.cont re.cont,
       rets := uniR rt.rets re.rets, ok := rt.ok && re.ok }
   | .ifcode t e, S =>
-    let rt := reach t (uni ((S.filter fun s => s.code != .ok).map fun s => s.apply (.code .bad)) [])
-    let re := reach e (uni ((S.filter fun s => s.code != .bad).map fun s => s.apply (.code .ok)) [])
+    let rt := reach t (uni ((S.filter fun s => s.code != .ok).map fun s => s.apply (.test .bad)) [])
+    let re := reach e (uni ((S.filter fun s => s.code != .bad).map fun s => s.apply (.test .ok)) [])
     { norm := uni rt.norm re.norm, brk := uni rt.brk re.brk, cont := uni rt.cont re.cont,
       rets := uniR rt.rets re.rets, ok := rt.ok && re.ok }
   | .blk b, S =>
@@ -239,10 +283,10 @@ def releaseSafe (d : Nat) (c : Cfg) : Bool :=
   let r := reach c [St.init]
   r.ok && r.rets.all fun p => decide (p.2 = .ok) || !p.1.isDirty d
 
-/-- C09(iii), second shape, for output `d`: on a path that calls a verification routine nothing
-is written to `d` before the first such call. -/
+/-- C09(iii), second shape, for output `d`: on a path that calls a verification routine, `d` is
+written only while the result of the most recent verification call has been TESTED and is success. -/
 def verifyFirst (d : Nat) (c : Cfg) : Bool :=
   let r := reach c [St.init]
-  r.ok && r.rets.all fun p => !p.1.vfy || !p.1.isEarly d
+  r.ok && r.rets.all fun p => decide (p.1.vst = .none) || !p.1.isEarly d
 
 end Bee2V.C15
